@@ -334,9 +334,21 @@ func ruleC08(c *Ctx) {
 			v := otb.T(ws.st.Val)
 			wantV := "lookup(" + freq + ", field[Triplet](each(field[Codons](each(field[AminoAcids](param[0]))))))"
 			okAddr := strings.HasPrefix(a, "fieldaddr[Weight](indexaddr(field[Codons](each(field[AminoAcids](param[0]))), rangeidx[")
+			// the upper-casing may live in the counter itself: freq(sequence) with the counter's window fed from ToUpper(its argument)
+			rawV := "lookup(call[" + fname(gcf) + "](param[1]), field[Triplet](each(field[Codons](each(field[AminoAcids](param[0]))))))"
+			innerUpper := false
+			if v.String() == rawV {
+				if wi := windowModel(gcf, newDeepTB(gcf), "call[strings.ToUpper](param[0])"); wi.State == holds {
+					innerUpper = true
+				}
+			}
 			switch {
 			case okAddr && v.String() == wantV:
 				st = holds
+			case okAddr && innerUpper:
+				st = holds
+			case okAddr && v.String() == rawV && upperWindowUnknown(gcf):
+				why = "the sequence is handed to the counter as typed and the counter's own case handling was not recognised"
 			case okAddr && len(opaqueParts(v, vocabOf(wantV))) == 0 && localDiff(v, wantV):
 				st, why = broken, "Weight is set to "+short(v.String())+"; want freq(ToUpper(sequence))[codon.Triplet]"
 			default:
@@ -360,4 +372,11 @@ func ruleC08(c *Ctx) {
 		rts = append(rts, short(a.T.String()))
 	}
 	c.checkShape(okRet, "TERM-COUNT", "OptimizeTable returns the re-weighted table", ot.Pos(), "returns its (re-weighted) receiver", "OptimizeTable returns "+strings.Join(rts, " | "))
+}
+
+// upperWindowUnknown: the counter's window model holds neither over its raw argument nor over the
+// upper-cased one (so nothing can be said about where the case is normalised).
+func upperWindowUnknown(gcf *ssa.Function) bool {
+	tb := newDeepTB(gcf)
+	return windowModel(gcf, tb, "param[0]").State != holds && windowModel(gcf, tb, "call[strings.ToUpper](param[0])").State != holds
 }
